@@ -217,7 +217,9 @@ def _run_main(res, ctx):
         q = next(q for q in r["qualnames"] if "." in q)
         mod = q.rsplit(".", 1)[0]
         first = qual_owner(q, call_rules)[0]
-        for depth in ((60, 300, 420) if not thorough else (60, 150, 260, 300, 420, 600)):
+        import diffhints
+        hint_depths = tuple(sorted({n + 40 for n in diffhints.hints(C.REPO)["ints"] if 20 <= n <= 700}))[:3]      # numbers on changed lines as nesting depths (none on the recorded tree)
+        for depth in (((60, 300, 420) if not thorough else (60, 150, 260, 300, 420, 600)) + hint_depths):
             shapes = [("binop-chain", f"import {mod}\nv = {q}(d)" + " + 1" * depth + "\n", 2),
                       ("binop-chain-multiline", f"import {mod}\nv = ({q}(d)\n" + "     + 1\n" * depth + ")\n", 2),
                       ("call-chain", f"import {mod}\nv = {q}(d)" + ".a()" * (depth // 2) + "\n", 2),
